@@ -112,8 +112,13 @@ class IndexedGrammar:
             rule.production, [])
         # l_rules contains the left symbol plus what is marked on
         # the right side
-        l_temp = [(x.left_term,
-                   self.marked[x.right]) for x in f_rules]
+        # The consumption rules with the same left symbol are alternatives:
+        # exactly one of them has to be chosen
+        alternatives = {}
+        for f_rule in f_rules:
+            alternatives.setdefault(f_rule.left_term, set()).update(
+                self.marked[f_rule.right])
+        l_temp = list(alternatives.items())
         marked_symbols = [x.left_term for x in f_rules]
         # Process all combinations of consumption rule
         was_modified |= addrec_bis(l_temp,
